@@ -671,6 +671,22 @@ func (e *Env) evalCall(n *ast.CallExpr) TV {
 		return TV{tt.Sel("v-s", "vstr", x.SS(), asTerm(arg(0).V)), tString}
 	case "boolof":
 		return TV{tt.Sel("v-b", "vbool", "Bool", asTerm(arg(0).V)), tBool}
+	case "unchanged":
+		// unchanged(lvalue): every cell designated by the modifies-style lvalue (evaluated in the pre-state) holds
+		// the same value in the current state as in the pre-state
+		oe := e.with(e.old)
+		var cs []*Term
+		for _, t := range oe.lvalueTargets(n.Args[0]) {
+			if t.whole {
+				panic("unchanged() over a whole heap")
+			}
+			srt := x.heapSorts[t.heap]
+			if srt == "" {
+				srt = t.sort
+			}
+			cs = append(cs, tt.Eq(tt.Select(x.heap(e.st, t.heap, srt), t.idx), tt.Select(x.heap(e.old, t.heap, srt), t.idx)))
+		}
+		return TV{tt.And(cs...), tBool}
 	case "ptrof":
 		av := asTerm(arg(0).V)
 		pv := tt.Sel("v-p", "vptr", "Int", av)
